@@ -30,7 +30,7 @@ COQ = ROOT / "coq"
 WORK = ROOT / ".work"
 EVID = ROOT / "evidence"
 REPLAY = EVID / "replay"
-REPO = Path("/repo")
+REPO = Path(os.environ.get("VERIF_REPO", "/repo"))
 PY = "/venv/bin/python"
 
 # Axioms of Coq's own standard library that a theorem may depend on (each is named in DESIGN §5).
@@ -49,7 +49,7 @@ FORBIDDEN_RE = re.compile(
 
 def impl_env() -> dict:
     env = dict(os.environ)
-    env["PYTHONPATH"] = "/repo:" + str(ROOT)
+    env["PYTHONPATH"] = f"{REPO}:" + str(ROOT)
     env["PYTHONHASHSEED"] = "0"
     env["PYTHONDONTWRITEBYTECODE"] = "1"
     env["OPTIMIZERS_VERIF"] = "1"
@@ -62,12 +62,13 @@ def assert_repo_imports() -> None:
     """The implementation under test must be /repo's current working tree."""
     import distributed_shampoo  # noqa
 
+    root = os.path.realpath(str(REPO)) + "/"
     f = os.path.realpath(distributed_shampoo.__file__)
-    assert f.startswith("/repo/"), f"distributed_shampoo imported from {f}, not /repo"
+    assert f.startswith(root), f"distributed_shampoo imported from {f}, not {root}"
     import matrix_functions  # noqa
 
     f = os.path.realpath(matrix_functions.__file__)
-    assert f.startswith("/repo/"), f"matrix_functions imported from {f}, not /repo"
+    assert f.startswith(root), f"matrix_functions imported from {f}, not {root}"
 
 
 # --------------------------------------------------------------------------------------
